@@ -1,6 +1,151 @@
-(* C19 — placeholder while the pipeline is brought up (replaced below). *)
-From Verif Require Import Base.Prelude Model.Scaled Model.Conv Spec.ConvSpec.
-Example C19_pinned_truncation_witness :
-  new_scaled_pinned (dec 29 2) = (28, -2) /\ new_scaled (dec 29 2) = (29, -2).
+(* C19 — Numeric and temporal conversions are exact within their declared precision.
+   Property theorems only; proofs are in Proofs/ScaledProofs.v (Flocq binary64 + Reals),
+   Proofs/PeriodProofs.v, Proofs/TimeFmtProofs.v (Z arithmetic) and Proofs/ConvProofs.v.
+   The model is Model/Conv.v (Scaled.v, Period.v, TimeFmt.v), tied to
+   model/commondatatypes_additions.go (with patches/fix-C19-scaled-round.diff) and to
+   rickb777/date/period by the correspondence harness cmd/c19; the property is the
+   monitor Spec/ConvSpec.v (the same extracted monitor judges the implementation). *)
+From Coq Require Import ZArith Reals List Bool Lia Lra.
+From Flocq Require Import Core BinarySingleNaN.
+From Verif Require Import Base.Prelude Model.Scaled Model.Period Model.TimeFmt Model.Conv Spec.ConvSpec.
+From Verif Require Import Proofs.ScaledProofs Proofs.PeriodProofs Proofs.TimeFmtProofs Proofs.ConvProofs.
+
+(* Every list of conversion inputs: each result of the model satisfies every clause of
+   the monitor that the scope predicate does not excuse.  Clauses: a decimal k*10^-d
+   (d <= 4, |k| < 10^15) is represented exactly and read back closer than half a unit of
+   its last place; a finite float of magnitude below 10^14 comes back within 0.0001
+   [excused above 10^11]; a multiple of 100 ms is read back exactly [excused from 3277
+   days]; a whole-second instant of the years 0..9999 is read back exactly; a relative
+   end is read back as the remaining duration to the second [excused from 3277 days]. *)
+Theorem C19_trace_accepted_partial : forall ops,
+  accepted (judge minit sinit (snd (run init ops))) = true.
+Proof. exact run_accepted. Qed.
+Print Assumptions C19_trace_accepted_partial.
+
+(* The full statement (nothing excused) is false of the model, as it is of the code:
+   71473741656405.6 comes back one ulp (0.0156) away, and 3277 days is written as
+   P8Y11M20D, which reads back 6h6m18s short. *)
+Definition c19_witness : list op :=
+  [OScaled (b64_of_wire 0 4574319466009958 (-6)); ODuration (3277 * NS_DAY)].
+Theorem C19_full_refuted : exists ops, strictly_accepted (judge minit sinit (snd (run init ops))) = false.
+Proof. exists c19_witness. vm_compute. reflexivity. Qed.
+Print Assumptions C19_full_refuted.
+
+(* ---- scaled numbers, in real-number terms ---- *)
+
+(* A decimal with at most four fractional digits: the (number, scale) pair denotes it
+   exactly and GetValue returns a float64 closer to it than half a unit of its last
+   decimal place.  [dec k d] is the float64 nearest to k*10^-d (Go: the literal). *)
+Theorem C19_decimal_roundtrip : forall k d, (0 <= d <= 4)%Z -> (Z.abs k < 10 ^ 15)%Z ->
+  let '(n, s) := new_scaled (dec k d) in
+  ((s <= 0)%Z /\ (n * 10 ^ d = k * 10 ^ (- s))%Z) /\
+  is_finite (get_value n s) = true /\
+  (Rabs (B2R (get_value n s) - IZR k / IZR (10 ^ d)) < / 2 * / IZR (10 ^ d))%R.
+Proof. exact decimal_roundtrip. Qed.
+Print Assumptions C19_decimal_roundtrip.
+
+(* The same statement is false of the pinned tree (math.Trunc): 0.29 -> (28, -2).
+   Repaired by patches/fix-C19-scaled-round.diff; the witness stays in the corpus. *)
+Theorem C19_pinned_truncation_refuted :
+  exists k d, (0 <= d <= 4)%Z /\ (Z.abs k < 10 ^ 15)%Z /\
+    let '(n, s) := new_scaled_pinned (dec k d) in (n * 10 ^ d <> k * 10 ^ (- s))%Z.
+Proof. exists 29%Z, 2%Z. vm_compute. repeat split; discriminate. Qed.
+Print Assumptions C19_pinned_truncation_refuted.
+
+(* Any finite float64: within 0.0001 — proved for |v| <= 10^11. *)
+Theorem C19_any_float_partial : forall v : b64, is_finite v = true -> (Rabs (B2R v) <= IZR (10 ^ 11))%R ->
+  let '(n, s) := new_scaled v in
+  is_finite (get_value n s) = true /\ (Rabs (B2R (get_value n s) - B2R v) <= / 10000)%R.
+Proof. exact scaled_near. Qed.
+Print Assumptions C19_any_float_partial.
+
+(* The statement of the property text (|v| < 10^14) is false; what is missing between
+   10^11 and 10^14 is not a proof but a different algorithm (recorded finding
+   scaled-error-exceeds-1e-4). *)
+Definition C19_any_float_full : Prop :=
+  forall v : b64, is_finite v = true -> (Rabs (B2R v) < IZR (10 ^ 14))%R ->
+  let '(n, s) := new_scaled v in (Rabs (B2R (get_value n s) - B2R v) <= / 10000)%R.
+Theorem C19_any_float_full_refuted : ~ C19_any_float_full.
+Proof.
+  intros H. specialize (H (b64_of_wire 0 4574319466009958 (-6)) eq_refl).
+  assert (E : new_scaled (b64_of_wire 0 4574319466009958 (-6)) = (714737416564056, -1)%Z) by (vm_compute; reflexivity).
+  rewrite E in H.
+  assert (Ev : B2R (b64_of_wire 0 4574319466009958 (-6)) = (4574319466009958 / 64)%R).
+  { replace (b64_of_wire 0 4574319466009958 (-6)) with (@B754_finite prec emax false 4574319466009958 (-6) eq_refl).
+    - unfold B2R, F2R. simpl. lra.
+    - apply B2SF_inj. vm_compute. reflexivity. }
+  assert (Er : B2R (get_value 714737416564056 (-1)) = (4574319466009959 / 64)%R).
+  { replace (get_value 714737416564056 (-1)) with (@B754_finite prec emax false 4574319466009959 (-6) eq_refl).
+    - unfold B2R, F2R. simpl. lra.
+    - apply B2SF_inj. vm_compute. reflexivity. }
+  rewrite Ev, Er in H.
+  assert (Hb : (Rabs (4574319466009958 / 64) < IZR (10 ^ 14))%R).
+  { rewrite Rabs_pos_eq by lra. change (IZR (10 ^ 14)) with 100000000000000%R. lra. }
+  specialize (H Hb).
+  replace (4574319466009959 / 64 - 4574319466009958 / 64)%R with (/ 64)%R in H by lra.
+  rewrite Rabs_pos_eq in H by lra. lra.
+Qed.
+Print Assumptions C19_any_float_full_refuted.
+
+(* ---- durations ---- *)
+
+(* every multiple of 100 ms below 3277 days survives NewDurationType / GetTimeDuration *)
+Theorem C19_duration : forall ns, Z.rem ns NS_100MS = 0 -> Z.abs ns < 3277 * (24 * NS_HOUR) ->
+  get_duration (new_duration ns) = Some ns.
+Proof. exact duration_roundtrip. Qed.
+Print Assumptions C19_duration.
+
+(* from 3277 days on it does not (recorded finding duration-roundtrip-inexact), and some
+   day counts are written as text that cannot be read at all *)
+Theorem C19_duration_beyond_refuted :
+  get_duration (new_duration (3277 * (24 * NS_HOUR))) = Some (3277 * (24 * NS_HOUR) - 21978 * NS_SECOND) /\
+  get_duration (new_duration (37620 * (24 * NS_HOUR))) = None.
 Proof. vm_compute. split; reflexivity. Qed.
-Print Assumptions C19_pinned_truncation_witness.
+Print Assumptions C19_duration_beyond_refuted.
+
+(* ---- instants ---- *)
+
+(* the calendar of the model is a bijection on all days, not only the years 0..9999 *)
+Theorem C19_calendar_roundtrip : forall z,
+  let '(y, m, d) := civil_from_days z in days_from_civil y m d = z.
+Proof. exact civil_roundtrip. Qed.
+Print Assumptions C19_calendar_roundtrip.
+
+Theorem C19_instant : forall sec, UNIX_YEAR_0 <= sec < UNIX_YEAR_10000 ->
+  get_time (new_datetime sec 0) = Some sec.
+Proof. exact instant_roundtrip. Qed.
+Print Assumptions C19_instant.
+
+(* ---- relative end of a time period ---- *)
+
+(* json.Unmarshal at clock t0 of a relative end [dur], json.Marshal at clock t1: the
+   relative end written is a whole number of seconds within one second of dur - (t1 - t0) *)
+Theorem C19_relative_end : forall dur t0 t1,
+  Z.rem dur NS_100MS = 0 -> Z.abs dur + Z.abs (t1 - t0) + NS_SECOND < DUR_LIMIT ->
+  end_in_range (t0 + dur) = true ->
+  exists e t r, snd (step tt (ORelEnd 0 dur t0 t1)) = [RelEnd e t (Some r)] /\
+    Z.rem r NS_SECOND = 0 /\ Z.abs (r - (dur - (t1 - t0))) <= NS_SECOND.
+Proof. exact relative_end_json. Qed.
+Print Assumptions C19_relative_end.
+
+(* NewTimePeriodTypeWithRelativeEndTime(dur) at t0, GetDuration() at t1: any duration *)
+Theorem C19_relative_end_direct : forall variant dur t0 t1, variant <> 0 -> end_in_range (t0 + dur) = true ->
+  exists e r, snd (step tt (ORelEnd variant dur t0 t1)) = [RelDirect e r] /\
+    Z.rem r NS_SECOND = 0 /\ Z.abs (r - (dur - (t1 - t0))) <= NS_SECOND.
+Proof. exact relative_end_direct. Qed.
+Print Assumptions C19_relative_end_direct.
+
+(* Non-vacuity: one input of each kind with the exact observations, strictly accepted:
+   0.29 -> (29,-2) -> 0.29; 1h0m0.5s -> PT1H0.5S -> the same; 2024-02-29T12:00:00Z;
+   a relative end of 90.5 s stored at ...:00.6 and read 30.2 s later -> PT1M. *)
+Example C19_nonvacuous :
+  let ops := [ODecimal 29 2; ODuration 3600500000000; OInstant 1709208000 0;
+              ORelEnd 0 90500000000 1709208000600000000 1709208030800000000] in
+  map snd (snd (run init ops)) =
+    [[DecScaled (dec 29 2) 29 (-2) (dec 29 2)];
+     [DurText {| t_neg := false; t_y := 0; t_mo := 0; t_w := 0; t_d := 0; t_h := 10; t_mi := 0; t_s := 5 |} (Some 3600500000000)];
+     [Instant {| d_y := 2024; d_mo := 2; d_d := 29; d_h := 12; d_mi := 0; d_s := 0 |} (Some 1709208000)];
+     [RelEnd {| d_y := 2024; d_mo := 2; d_d := 29; d_h := 12; d_mi := 1; d_s := 31 |}
+             {| t_neg := false; t_y := 0; t_mo := 0; t_w := 0; t_d := 0; t_h := 0; t_mi := 10; t_s := 0 |} (Some 60000000000)]] /\
+  strictly_accepted (judge minit sinit (snd (run init ops))) = true.
+Proof. vm_compute. split; reflexivity. Qed.
